@@ -8,7 +8,10 @@ mkdir -p work evidence replays
 if [ -z "$VERIF_SKIP_BENCH" ]; then
   (cd harness && cargo build --offline --features benchmark --target-dir target-bench 2>&1 | tail -3)
 fi
-for f in spec/*.tla; do
-  tla-sany "$f" > work/sany.log 2>&1 || { echo "SANY failed on $f"; cat work/sany.log; exit 1; }
+cd spec
+for f in *.tla; do
+  case "$f" in *Proofs.tla) continue;; esac   # proof modules EXTEND TLAPS: parsed and checked by tlapm (check C17)
+  tla-sany "$f" > ../work/sany.log 2>&1 || { echo "SANY failed on $f"; cat ../work/sany.log; exit 1; }
 done
+cd ..
 echo "setup ok"
